@@ -221,8 +221,10 @@ impl Operator {
 }
 
 fn escape_filter_value(value: &str) -> Cow<'_, str> {
-    if value.contains('"') {
-        Cow::Owned(value.replace('"', r#"\\""#))
+    if value.contains(['"', '\\']) {
+        // A backslash has to survive both the argument unquoting and the filter expression
+        // unquoting
+        Cow::Owned(value.replace('\\', r"\\\\").replace('"', r#"\\""#))
     } else {
         Cow::Borrowed(value)
     }
